@@ -1,12 +1,12 @@
 package main
 
 import (
-	"strings"
 	"fmt"
 	"go/constant"
 	"go/token"
 	"go/types"
 	"math"
+	"strings"
 
 	"golang.org/x/tools/go/ssa"
 )
@@ -718,7 +718,14 @@ func (c *Ctx) checkClockRefresh(rule string) {
 		res := false
 		instrsOf(f, func(in ssa.Instruction) {
 			if ci, ok := in.(ssa.CallInstruction); ok && !res {
-				if g := ci.Common().StaticCallee(); g != nil && c.inModule(g) {
+				g := ci.Common().StaticCallee()
+				if g == nil && !ci.Common().IsInvoke() {
+					// a function value held in a (captured) variable with one binding: `fn := r.timeLoop`
+					if mc, isMC := canon(ci.Common().Value).(*ssa.MakeClosure); isMC {
+						g, _ = mc.Fn.(*ssa.Function)
+					}
+				}
+				if g != nil && (c.inModule(g) || strings.HasPrefix(g.Synthetic, "bound method wrapper")) {
 					res = reaches(g, depth-1)
 				}
 			}
@@ -736,7 +743,7 @@ func (c *Ctx) checkClockRefresh(rule string) {
 		} else {
 			f = g.Call.StaticCallee()
 		}
-		if reaches(f, 3) {
+		if reaches(f, 4) {
 			started = true
 		}
 	})
